@@ -1213,6 +1213,13 @@ type writeSet struct {
 	vars map[types.Object]bool
 	mems map[string]bool
 	all  bool
+	// region-wise frame: bases[m] lists the slice variables through which memory m is
+	// written by indexing (v[i] = ..., v[i].f = ...); whole[m] is set when m is also
+	// written in any other way. A memory with bases only, all of them variables the
+	// code does not assign, changes in the regions of those slices and nowhere else.
+	bases   map[string]map[types.Object]bool
+	whole   map[string]bool
+	curBase types.Object
 	// foreign: the code also calls functions outside the engine's view (dependencies,
 	// interface methods); reach names the struct types of the module whose values
 	// those calls are handed (see private.go), reachAll: that cannot be bounded.
@@ -1573,6 +1580,16 @@ func (x *Exec) loop(s *State, fr *Frame, node ast.Stmt, label string, condFn fun
 	} else {
 		for m := range ws.mems {
 			if srt, ok := x.memSorts[m]; ok {
+				if rg, ok := x.frameRegions(h, ws, m); ok {
+					// written only by indexing slices the loop does not reassign: only
+					// their regions change
+					cur := x.mem(h, m, srt)
+					for _, r := range rg {
+						cur = Store(cur, r, x.ctx.Fresh("in$"+m, ArrSort(srt)))
+					}
+					x.setMem(h, m, cur)
+					continue
+				}
 				h.mem[m] = x.ctx.Fresh("mem$"+m, outerSort(srt))
 			} else {
 				// memory not touched so far: materialise lazily with a fresh name
@@ -1650,6 +1667,33 @@ func (x *Exec) loop(s *State, fr *Frame, node ast.Stmt, label string, condFn fun
 		}
 	}
 	return x.mergeAll(exits)
+}
+
+// frameRegions: the regions a loop may change in memory m, when that is known (see
+// writeSet.bases).
+func (x *Exec) frameRegions(h *State, ws *writeSet, m string) ([]Term, bool) {
+	if ws.whole[m] || len(ws.bases[m]) == 0 {
+		return nil, false
+	}
+	var out []Term
+	var names []string
+	byName := map[string]Term{}
+	for o := range ws.bases[m] {
+		if ws.vars[o] {
+			return nil, false
+		}
+		sv, ok := h.vars[o].(*SliceV)
+		if !ok {
+			return nil, false
+		}
+		names = append(names, sv.Rgn.S)
+		byName[sv.Rgn.S] = sv.Rgn
+	}
+	sort.Strings(names)
+	for _, n := range names {
+		out = append(out, byName[n])
+	}
+	return out, true
 }
 
 // pendingHavoc handles a havoc of a memory whose sort is not known yet: every
@@ -1853,7 +1897,10 @@ func (x *Exec) markLvalue(info *types.Info, e ast.Expr, ws *writeSet) {
 	case *ast.IndexExpr:
 		switch u := info.TypeOf(v.X).Underlying().(type) {
 		case *types.Slice:
+			saved := ws.curBase
+			ws.curBase = sliceBase(info, v.X)
 			x.markType(u.Elem(), memName(u.Elem()), ws)
+			ws.curBase = saved
 		case *types.Array:
 			x.markType(u.Elem(), memName(u.Elem()), ws)
 		case *types.Pointer:
@@ -1900,7 +1947,10 @@ func (x *Exec) markLvalue(info *types.Info, e ast.Expr, ws *writeSet) {
 		case *ast.IndexExpr:
 			switch u := info.TypeOf(r.X).Underlying().(type) {
 			case *types.Slice:
+				saved := ws.curBase
+				ws.curBase = sliceBase(info, r.X)
 				x.markType(info.TypeOf(e), memName(u.Elem())+path, ws)
+				ws.curBase = saved
 			case *types.Array:
 				x.markType(info.TypeOf(e), memName(u.Elem())+path, ws)
 			default:
@@ -1957,12 +2007,45 @@ func (x *Exec) markType(t types.Type, prefix string, ws *writeSet) {
 	}()
 	for _, l := range x.leaves(t) {
 		ws.mems[prefix+l.path] = true
+		if ws.curBase != nil {
+			if ws.bases == nil {
+				ws.bases = map[string]map[types.Object]bool{}
+			}
+			if ws.bases[prefix+l.path] == nil {
+				ws.bases[prefix+l.path] = map[types.Object]bool{}
+			}
+			ws.bases[prefix+l.path][ws.curBase] = true
+		} else {
+			if ws.whole == nil {
+				ws.whole = map[string]bool{}
+			}
+			ws.whole[prefix+l.path] = true
+		}
 		if _, ok := x.memSorts[prefix+l.path]; !ok {
 			x.memSorts[prefix+l.path] = l.sort
 		}
 	}
-	// arrays inside: element memories
+	// arrays inside: element memories (they live in regions of their own)
+	saved := ws.curBase
+	ws.curBase = nil
 	x.markArrays(t, ws)
+	ws.curBase = saved
+}
+
+// sliceBase returns the local slice variable an index expression's operand denotes.
+func sliceBase(info *types.Info, e ast.Expr) types.Object {
+	id, ok := ast.Unparen(e).(*ast.Ident)
+	if !ok {
+		return nil
+	}
+	v, ok := info.Uses[id].(*types.Var)
+	if !ok || v.IsField() || v.Pkg() == nil || v.Parent() == v.Pkg().Scope() {
+		return nil
+	}
+	if _, ok := v.Type().Underlying().(*types.Slice); !ok {
+		return nil
+	}
+	return v
 }
 
 func (x *Exec) markArrays(t types.Type, ws *writeSet) {
